@@ -169,3 +169,31 @@ pub broadcast group ring {
     lemma_add_comm, lemma_mul_comm, lemma_add_assoc, lemma_mul_assoc, lemma_distrib,
     lemma_add_zero, lemma_mul_one, lemma_mul_zero, lemma_add_neg,
 }
+/// small sums do not wrap
+pub proof fn lemma_small_add(a: int, b: int)
+    requires 0 <= a, 0 <= b, a + b < r(),
+    ensures fadd(a, b) == a + b
+{
+    lemma_small_mod((a + b) as nat, r() as nat);
+}
+/// 2*a == 0 ==> a == 0  (r is odd: r > 2 and prime)
+pub proof fn lemma_double_zero(a: int)
+    requires inr(a), fadd(a, a) == 0,
+    ensures a == 0
+{
+    broadcast use lemma_mul_one, lemma_distrib, lemma_mul_comm;
+    axiom_r_gt_1();
+    lemma_small_add(1, 1);
+    assert(fmul(a, fadd(1, 1)) == fadd(fmul(a, 1), fmul(a, 1)));
+    assert(fmul(a, 2) == 0);
+    lemma_no_zero_div(a, 2);
+}
+/// -a == a ==> a == 0
+pub proof fn lemma_neg_self(a: int)
+    requires inr(a), fneg(a) == a,
+    ensures a == 0
+{
+    broadcast use lemma_add_neg;
+    assert(fadd(a, fneg(a)) == 0);
+    lemma_double_zero(a);
+}
